@@ -8,6 +8,8 @@ NOTES = {
  "C16-3": "missed at first; caught by Trace_LinMap.tla's quiescent Len = reachable entries",
  "C04-3": "missed at first; caught after negative answers got their second lifetime source from the RRSIG expiration as well as the SOA minimum",
  "C04-2": "missed at first; caught after alias chains ending in a (bare) denial were added (Sim_LeaseAnswerNeg.cfg)",
+ "C01-1": "missed at first (the tampered referral was always the TLD's, whose DS a parent DS authenticates); caught after the tamper position rootref (the root's referral for the signed parent) was added to Dnssec.tla and the replay",
+ "C01-2": "missed at first; caught after the tampering kind fakedname (forged CNAME vouched for by an unsigned ancestor DNAME in the authority section) was added",
  "C08-1": "missed at first; caught after the slowns shape (un-glued NS host whose address lookup outlasts the lease, directly below the root) was added to the pipeline tier",
  "C08-2": "missed at first; caught after the pipeline tier got wire-born client queries and background refresh (threshold 90 %) as scenario shapes",
 }
